@@ -477,6 +477,11 @@ func Families(tier string) []Family {
 				c.Desc = T("the program")
 				c.Nodes[1].Args = Ts("<file>", "<dest>")
 				c.Nodes[1].ArgsD = Ts("input file", "")
+				// two declared arguments of which only the second is described; a single argument without description
+				c.Nodes[2].Args = Ts("<src>", "<dst>")
+				c.Nodes[2].ArgsD = Ts("", "destination directory")
+				c.Nodes[0].Args = Ts("<only>")
+				c.Nodes[0].ArgsD = Ts("")
 			}
 			for ki, kind := range AllKinds {
 				o := multi(kind, "o"+kind, 1+(ki+variant)%4, 1, 1+ki%3)
